@@ -154,6 +154,29 @@ def main() -> int:
             if mine[i] != base[i]:
                 rep.violation("in-process output differs from fresh-process output with the same hash seed",
                               {"script.py": scripts[i]}, key="fresh-vs-warm")
+    # (5) each script alone in a fresh interpreter: the reference that no earlier transpilation can have influenced
+    from concurrent.futures import ThreadPoolExecutor
+
+    def solo(i):
+        with tempfile.TemporaryDirectory(prefix="reduverif-") as td2:
+            sp2 = Path(td2) / "one.json"
+            sp2.write_text(json.dumps([scripts[i]]))
+            env = dict(os.environ)
+            env["PYTHONHASHSEED"] = str(base_seed)
+            p = subprocess.run([PY, "-c", CHILD, str(sp2), str(REPO_SRC)], capture_output=True, text=True, env=env, timeout=300)
+            if p.returncode != 0:
+                return i, None, p.stderr[-200:]
+            return i, json.loads(p.stdout)[0], ""
+
+    with ThreadPoolExecutor(max_workers=min(16, os.cpu_count() or 4)) as ex:
+        for i, d, err in ex.map(solo, range(len(scripts))):
+            if d is None:
+                rep.inconclusive_because(f"solo child for script {i} failed: {err}")
+                continue
+            rep.count("solo_fresh_process_runs")
+            if d != base[i]:
+                rep.violation("output of a script transpiled alone in a fresh process differs from its output after other scripts were "
+                              "transpiled in the same process", {"script.py": scripts[i]}, key="solo-vs-sequence")
     # (3) threads
     old = sys.getswitchinterval()
     sys.setswitchinterval(1e-6)
